@@ -61,6 +61,14 @@ func init() {
 			if ex.ctxDone(fr, a[1]) {
 				return false
 			}
+			// interleaving mode: the holder may be slower than the lease time
+			// (once per path): the wait ends with a timeout
+			if ex.cfg.Interleave && ex.leaseExpiries < 1 {
+				if ex.choose(2, "lease-expiry") == 1 {
+					ex.leaseExpiries++
+					return false
+				}
+			}
 			// held by somebody else: wait for a release; if nobody can ever
 			// release it the context's timeout is what ends the wait
 			if !ex.blockOrTimeout("CASMutex.TryLockWithContext", func() bool { return !(*h).(bool) }) {
